@@ -239,6 +239,12 @@ def run(ctx, replay=None):
         if replay.get("case", {}).get("fusion"):  # failures of the fusion section (harness/props_ext/c02_fusion.py)
             from harness.props_ext import c02_fusion
             return c02_fusion.run_fusion(ctx, replay)
+        if "operands" in replay.get("case", {}) or "tree" in replay.get("case", {}):  # harness/props_ext/c02_lower.py
+            from harness.props_ext import c02_lower
+            return c02_lower.run(ctx, replay)
+        if replay.get("case", {}).get("grid"):  # grid-sensitive consumers (harness/props_ext/c02_grid.py)
+            from harness.props_ext import c02_grid
+            return c02_grid.run_grid(ctx, replay)
         prog = replay["case"]["program"]
         check_program(ctx, prog, P.run_np(prog)[prog[-1]["out"]])
         X.flush(ctx)
@@ -268,3 +274,7 @@ def run(ctx, replay=None):
     c02_fusion.run_fusion(ctx)
     from harness.props_ext import c02_rules2  # phase 3 rules (Props/C02Ext.lean; ru2.*)
     c02_rules2.run_ext(ctx)
+    from harness.props_ext import c02_grid  # block-layout-sensitive consumers over pushdown targets (grid contract)
+    c02_grid.run_grid(ctx)
+    from harness.props_ext import c02_lower  # chunk unification at lowering (Props/C02Lower.lean, C17Lower.lean; lwu.*)
+    c02_lower.run(ctx)
